@@ -91,6 +91,35 @@ func pardoWorld(r *R) {
 		callerKind = []int{0, 0, 0, 1, 2}[r.Choose(5, "callerctx")]
 	}
 	root := NewCtx(nil, "root")
+	// Earlier calls in the same process: the call under test is not the first use of the package.
+	// They ran while the program had more processors, and one of them ended in an error.
+	if r.Choose(3, "earlier-calls") == 2 {
+		r.Probe("earlier-calls-in-same-process")
+		g := sim.GOMAXPROCS(r.Cfg.GOMAXPROCS*2 + 1)
+		cnt := make([]int, 5)
+		parallel.Do(-1, len(cnt), func(i int) { sim.Yield("earlier-f"); cnt[i]++ })
+		for i, c := range cnt {
+			if c != 1 {
+				r.Violate("C13", "earlier-call/not-exactly-once", "an earlier parallel.Do(-1, 5, f) called f %d times for index %d", c, i)
+				return
+			}
+		}
+		if r.Choose(2, "earlier-error") == 1 {
+			e := NewErr("earlier")
+			got := parallel.DoContext(root.C, 3, 7, func(ctx context.Context, i int) error {
+				sim.Yield("earlier-f")
+				if i == 2 {
+					return e
+				}
+				return nil
+			})
+			if got != e {
+				r.Violate("C13", "earlier-call/wrong-error", "an earlier DoContext whose f(2) failed returned %v", got)
+				return
+			}
+		}
+		sim.GOMAXPROCS(g) // the program lowers GOMAXPROCS: later calls go by the new value
+	}
 	var caller *Ctx
 	switch callerKind {
 	case 0:
